@@ -60,6 +60,8 @@ Step(ev) ==
      [] ev.e = "Fixup" -> UNCHANGED vars /\ JudgeEv(ev, [ret |-> ev.i % size])
      [] ev.e = "Distance" -> UNCHANGED vars /\ JudgeEv(ev, [ret |-> (ev.a - ev.b) % size])
      [] ev.e = "Iter"  -> UNCHANGED vars /\ JudgeEv(ev, [data |-> q])
+     \* the ring replaced by a copy of itself (copy / move construction or assignment): nothing observable changes
+     [] ev.e = "Dup" -> UNCHANGED vars /\ JudgeEv(ev, <<>>)
      [] ev.e = "Resize" -> /\ size' = ev.n + 1 /\ q' = <<>> /\ head' = 0 /\ tail' = 0
                            /\ mem' = [i \in 0..ev.n |-> 0] /\ ret' = <<"resize">>
                            /\ JudgeEv(ev, <<>>)
